@@ -11,6 +11,7 @@ from harness import common
 from harness.common import Run
 
 FAMS = {'ipv4': 0, 'ipv6': 1}
+DOGS = ['dogA', 'dogB']
 
 
 # ------------------------------------------------------------------------------- universe of routes
@@ -37,6 +38,16 @@ class Universe:
                     if len(rs) != 1:
                         raise RuntimeError(f'universe: {text!r} -> {rs}')
                     self.routes[(p, a, h)] = rs[0]
+
+    def watchdog_route(self, key, dog, withdrawn):
+        """a fresh Route object carrying the internal watchdog attribute (add_to_rib_watchdog pops it)"""
+        p, a, h = key
+        fam, prefix = self.prefixes[p]
+        text = f'route {prefix} next-hop {self.nhs[fam][h]} {self.attrs[a]} watchdog {DOGS[dog]}' + (' withdraw' if withdrawn else '')
+        rs = self.conf.parse_route_text(text)
+        if len(rs) != 1:
+            raise RuntimeError(f'universe: {text!r} -> {rs}')
+        return rs[0]
 
     def ids(self, route):
         """(idx id, family id, attr id, nh id) for a real Route"""
@@ -134,6 +145,19 @@ def run_impl(uni, cache, grouped, ops):
                 peer.pop(u[1], None)
         fetch()
 
+    wdog = {}
+
+    def track(op):
+        if op[0] == 'wadd':
+            i = uni.ids(uni.routes[op[1]])[0]
+            wdog.setdefault(op[2], {'+': {}, '-': {}})['-' if op[3] else '+'][i] = op[1]
+        elif op[0] == 'wann' and op[1] in wdog:
+            wdog[op[1]]['+'].update(wdog[op[1]]['-'])
+            wdog[op[1]]['-'] = {}
+        elif op[0] == 'wwd' and op[1] in wdog:
+            wdog[op[1]]['-'].update(wdog[op[1]]['+'])
+            wdog[op[1]]['+'] = {}
+
     up = True
     fresh = True  # Peer._main starts every session with include_withdraw = False for its first generator
     include_withdraw = True
@@ -163,6 +187,19 @@ def run_impl(uni, cache, grouped, ops):
         elif kind in ('start', 'emit') and not up:
             if kind == 'emit':
                 emit_counts.append(0)
+        elif kind == 'wadd':
+            rib.add_to_rib_watchdog(uni.watchdog_route(op[1], op[2], op[3]))
+            if not op[3]:
+                banned.discard(uni.ids(uni.routes[op[1]])[0])
+        elif kind == 'wann':
+            for i in list(wdog.get(op[1], {}).get('-', {})):
+                banned.discard(i)
+            rib.announce_watchdog(DOGS[op[1]])
+        elif kind == 'wwd':
+            if not up:
+                for i in list(wdog.get(op[1], {}).get('+', {})):
+                    banned.add(i)
+            rib.withdraw_watchdog(DOGS[op[1]])
         elif kind == 'resend':
             rib.resend(op[1], None if op[2] is None else uni.fam_tuple(op[2]))
         elif kind == 'wdall':
@@ -176,6 +213,7 @@ def run_impl(uni, cache, grouped, ops):
                 fetch()
         elif kind == 'emit':
             emit_one()
+        track(op)
     seen = []
     for r in rib.cached_routes():
         i, f, a, h = uni.ids(r)
@@ -193,6 +231,18 @@ Definition R (i f a h : Z) : route := {| ridx := i; rfam := f; rattr := a; rnh :
 
 
 def coq_op(uni, op, emits_per_flatten):
+    kind = op[0]
+    if kind == 'wadd':
+        i, f, a, h = uni.ids(uni.routes[op[1]])
+        return f'WAdd (R {i} {f} {a} {h}) {op[2]} {"true" if op[3] else "false"}'
+    if kind == 'wann':
+        return f'WAnnounce {op[1]}'
+    if kind == 'wwd':
+        return f'WWithdraw {op[1]}'
+    return 'Base (' + coq_base_op(uni, op) + ')'
+
+
+def coq_base_op(uni, op):
     kind = op[0]
     if kind in ('ann', 'annf', 'wd'):
         i, f, a, h = uni.ids(uni.routes[op[1]])
@@ -267,10 +317,10 @@ def model_eval(uni, cases, tag, emit_counts=None):
             parts = []
             for o in ops:
                 if o[0] == 'emit' and counts is not None:
-                    parts += ['Emit'] * max(1, counts.pop(0))
+                    parts += ['Base Emit'] * max(1, counts.pop(0))
                 else:
                     parts.append(coq_op(uni, o, None))
-            items.append(f'observe {"true" if cache else "false"} [' + '; '.join(parts) + ']')
+            items.append(f'wobserve {"true" if cache else "false"} [' + '; '.join(parts) + ']')
         return 'Eval vm_compute in [' + ';\n'.join(items) + '].\n'
 
     res = common.eval_cases(HEADER, defs, shards, tag)
@@ -308,7 +358,15 @@ def gen_ops(rng, uni, n, cache, sessions=False):
         x = rng.random()
         p = rng.choice(hot) if rng.random() < 0.7 else rng.randrange(len(uni.prefixes))
         key = (p, rng.randrange(len(uni.attrs)), rng.randrange(2))
-        if x < 0.32:
+        if rng.random() < 0.10:
+            y = rng.random()
+            if y < 0.5:
+                ops.append(('wadd', key, rng.randrange(2), rng.random() < 0.4))
+            elif y < 0.75:
+                ops.append(('wann', rng.randrange(2)))
+            else:
+                ops.append(('wwd', rng.randrange(2)))
+        elif x < 0.32:
             ops.append(('ann', key))
         elif x < 0.37:
             ops.append(('annf', key))
@@ -337,7 +395,23 @@ TAIL = len(close_schedule([]))
 def expected_table(uni, ops):
     """the operator's intention, independent of the RIB: last announce / withdraw per index"""
     t = {}
+    wd = {}
     for op in ops:
+        if op[0] == 'wadd':
+            i, f, a, h = uni.ids(uni.routes[op[1]])
+            wd.setdefault(op[2], {'+': {}, '-': {}})['-' if op[3] else '+'][i] = (a, h)
+            if not op[3]:
+                t[i] = (a, h)
+        elif op[0] == 'wann' and op[1] in wd:
+            for i, v in wd[op[1]]['-'].items():
+                t[i] = v
+            wd[op[1]]['+'].update(wd[op[1]]['-'])
+            wd[op[1]]['-'] = {}
+        elif op[0] == 'wwd' and op[1] in wd:
+            for i in wd[op[1]]['+']:
+                t.pop(i, None)
+            wd[op[1]]['-'].update(wd[op[1]]['+'])
+            wd[op[1]]['+'] = {}
         if op[0] in ('ann', 'annf'):
             i, f, a, h = uni.ids(uni.routes[op[1]])
             t[i] = (a, h)
@@ -478,7 +552,12 @@ def check(tier, seed, pid='C04'):
         im = run_impl(uni, cache, grouped, close_schedule(core))
         pretty = []
         for o in core:
-            if o[0] in ('ann', 'annf', 'wd'):
+            if o[0] == 'wadd':
+                p, a, h = o[1]
+                pretty.append(f'add_to_rib_watchdog {uni.prefixes[p][1]} next-hop {uni.nhs[uni.prefixes[p][0]][h]} {uni.attrs[a]} watchdog {DOGS[o[2]]}{" withdraw" if o[3] else ""}')
+            elif o[0] in ('wann', 'wwd'):
+                pretty.append(f'{"announce" if o[0] == "wann" else "withdraw"} watchdog {DOGS[o[1]]}')
+            elif o[0] in ('ann', 'annf', 'wd'):
                 p, a, h = o[1]
                 pretty.append(f'{o[0]} {uni.prefixes[p][1]} next-hop {uni.nhs[uni.prefixes[p][0]][h]} {uni.attrs[a]}')
             else:
